@@ -771,6 +771,19 @@ pub fn generate(sink: &mut Sink, rng: &mut Rng, n: u64) {
             emit_all(sink, &format!("<%{{{b}{d}}}> %{{{b}{d}}}"), &[], &["<ab> cd".to_string(), "<1> 2".to_string()], "builtin");
         }
     }
+    // nested alias definitions with matching inputs (numbering of nested captures, shared destinations)
+    let nested = vec![
+        ("outer".to_string(), "<%{inner:x}>%{num:n:integer}".to_string()),
+        ("inner".to_string(), "[a-z]+".to_string()),
+        ("num".to_string(), "[0-9]+".to_string()),
+        ("pair".to_string(), "%{inner:k.a}=%{num:k.b:scale(10)}".to_string()),
+        ("deep".to_string(), "\\[%{pair:p}(?:,%{pair})*\\]".to_string()),
+    ];
+    for rule in ["%{outer:o} %{outer}", "%{outer}", "%{pair:k}", "%{deep:d}", "%{deep}", "%{inner:x}%{num:x}%{inner:x}", "%{outer:a.b}|%{pair:a}"] {
+        let inputs: Vec<String> =
+            ["<ab>12 <cd>7", "<ab>12", "ab=3", "[ab=3]", "[ab=3,cd=4]", "[ab=3,cd=4,ef=5]", "ab12cd", "<q>1", "", "x=1"].iter().map(|s| s.to_string()).collect();
+        emit_all(sink, rule, &nested, &inputs, "nested");
+    }
     // every single literal character, and all pairs of metacharacters
     for c in LIT {
         let s = c.to_string();
